@@ -4,17 +4,13 @@ import (
 	"fmt"
 
 	"daecheck/internal/core"
+	"daecheck/internal/props"
 )
 
 func main() {
-	ov, err := core.RealBuildOverlay("/repo")
-	if err != nil {
-		panic(err)
-	}
-	p, err := core.Load(core.LoadOpts{Repo: "/repo", Variant: "real", Overlay: ov, Pattern: "./control"})
+	p, err := core.Load(core.LoadOpts{Repo: "/repo", Variant: "stub", Tags: "dae_stub_ebpf"})
 	fmt.Println(err)
 	if p != nil {
-		f := p.Func("control", "cidrToBpfLpmKey")
-		fmt.Println(f != nil, p.NPkgs)
+		props.DebugNarrow(p)
 	}
 }
